@@ -5,10 +5,32 @@ from ..vfg import place_of
 from .base import Rule
 
 
+def _is_sender_of_file(prog, ty):
+    s = prog.ty_str(ty)
+    return s.startswith("std::sync::mpsc::Sender<") and "std::fs::File" in s
+
+
+def carrier_enums(ctx):
+    """Crate-local enums that say the same as Option<Sender<File>>: exactly one variant holds the sender (and nothing
+    else), every other variant has no fields. enum path -> index of the channel variant."""
+    prog = ctx.prog
+    out = {}
+    for path, adt in prog.adts.items():
+        if adt["kind"] != "Enum":
+            continue
+        ch = [i for i, v in enumerate(adt["variants"])
+              if len(v["fields"]) == 1 and _is_sender_of_file(prog, v["fields"][0]["ty"])]
+        rest = [i for i, v in enumerate(adt["variants"]) if i not in ch]
+        if len(ch) == 1 and rest and all(not adt["variants"][i]["fields"] for i in rest):
+            out[path] = ch[0]
+    return out
+
+
 def channel_field(ctx):
-    """The field of type Option<mpsc::Sender<File>> (by type)."""
+    """The field of type Option<mpsc::Sender<File>>, or of a crate-local enum of the same shape (by type)."""
     prog = ctx.prog
     hits = []
+    enums = carrier_enums(ctx)
     for path, adt in prog.adts.items():
         if adt["kind"] != "Struct":
             continue
@@ -16,13 +38,30 @@ def channel_field(ctx):
             s = prog.ty_str(f["ty"])
             if s.startswith("std::option::Option<std::sync::mpsc::Sender<") and "std::fs::File" in s:
                 hits.append(("F", path, f["name"]))
+            elif prog.adt_of(f["ty"])[0] in enums:
+                hits.append(("F", path, f["name"]))
     return hits
 
 
+def carrier_of(ctx, field):
+    """(enum path or None for Option, index of the channel variant) of the channel field."""
+    prog = ctx.prog
+    for f in prog.adts[field[1]]["variants"][0]["fields"]:
+        if f["name"] == field[2]:
+            d = prog.adt_of(f["ty"])[0]
+            enums = carrier_enums(ctx)
+            if d in enums:
+                return d, enums[d]
+    return None, 1
+
+
 def _switches_on_field(ctx, field):
-    """(body, bb, some_target, none_target) for every switch on discriminant(place.field)."""
+    """(body, bb, channel_target, other_target) for every switch on discriminant(place.field) - or, when the channel
+    is a crate-local enum, on the discriminant of any place of that type (its own methods switch on `self`)."""
     out = []
-    for b in ctx.prog.bodies.values():
+    enum, chv = carrier_of(ctx, field)
+    prog = ctx.prog
+    for b in prog.bodies.values():
         for bb in b.normal_blocks():
             t = b.blocks[bb]["term"]
             if t["k"] != "switch":
@@ -38,11 +77,16 @@ def _switches_on_field(ctx, field):
                 continue
             root = ctx.world._root_place(b, src)
             n = ctx.world.vfg.node_of_place(b, root)
-            if n == field:
+            hit = n == field
+            if not hit and enum is not None:
+                pty = ctx.world._place_ty(b, src)
+                hit = pty is not None and prog.adt_of(pty)[0] == enum
+            if hit:
                 listed = dict((v, x) for v, x in t["targets"])
-                some_t = listed.get(1)
-                none_t = listed.get(0, t["otherwise"] if 1 in listed else None)
-                if some_t is None and 0 in listed:
+                some_t = listed.get(chv)
+                others = [x for v, x in t["targets"] if v != chv]
+                none_t = others[0] if others else (t["otherwise"] if chv in listed else None)
+                if some_t is None and others:
                     some_t = t["otherwise"]
                 out.append((b, bb, some_t, none_t))
     return out
@@ -66,9 +110,10 @@ def rule_mode_premise(ctx, rid="R0"):
     prog = ctx.prog
     fields = channel_field(ctx)
     if len(fields) != 1:
-        r.bad("channel-field", None, "expected exactly one Option<Sender<File>> field, found %d" % len(fields))
+        r.bad("channel-field", None, "expected exactly one Option<Sender<File>> (or equivalent two-state enum) field, found %d" % len(fields))
         return r.finish()
     field = fields[0]
+    c_enum, c_chv = carrier_of(ctx, field)
     # aggregate construction sites of the owner struct
     found = 0
     ctors = [b0 for b0 in prog.bodies.values()
@@ -123,7 +168,11 @@ def rule_mode_premise(ctx, rid="R0"):
                 ok = True
                 n_none = 0
                 for (dbb, j, rv2) in defs:
-                    is_none = j != "term" and rv2["k"] == "agg" and rv2.get("vn") == "None"
+                    if c_enum is None:
+                        is_none = j != "term" and rv2["k"] == "agg" and rv2.get("vn") == "None"
+                    else:
+                        is_none = j != "term" and rv2["k"] == "agg" and rv2.get("def") == c_enum \
+                            and rv2.get("vn") != prog.adts[c_enum]["variants"][c_chv]["name"]
                     under_sync = b.dominates(sync_t, dbb) and not b.dominates(async_t, dbb)
                     under_async = b.dominates(async_t, dbb) and not b.dominates(sync_t, dbb)
                     if is_none:
